@@ -19,6 +19,7 @@ from ..engine.loader import class_methods
 
 RD = "xonsh/procs/readers.py"
 PL = "xonsh/procs/pipelines.py"
+PXY = "xonsh/procs/proxies.py"
 PO = "xonsh/procs/posix.py"
 SP = "xonsh/procs/specs.py"
 
@@ -34,6 +35,7 @@ def check(ctx):
     ctx.rule("R3", "a final drain of stdout follows the last wait; writer ends are closed before the blocking drain", floor=5)
     ctx.rule("R4", "raw bytes are recorded before shaping; only CR/CRLF->LF, decode and escape stripping are applied; the trailing newline is stripped only for one-line output", floor=5)
     ctx.rule("R5", "the reported return code is read from the last stage", floor=1)
+    ctx.rule("R7", "writers that share the capture pipe through different layers (text dispatcher, raw buffer) never leave text pending", floor=3)
     ctx.rule("R6", "captured stdout is not echoed to the terminal and stderr is not mixed into a stdout capture", floor=3)
 
     rd = ctx.repo.module(RD)
@@ -262,6 +264,31 @@ def check(ctx):
     # stdout capture pipe is created for the capturing kinds
     ok = any(n.kind == "if" and any(f"{c_} in STDOUT_CAPTURE_KINDS" in unparse(n.ast.test) for c_ in CAPT) for n in mcfg.nodes)
     ctx.ob("R6", f"{SP}:_make_last_spec_captured", "capturing kinds get a dedicated pipe for stdout", ok, key="capture|stdout-pipe")
+
+
+    # ------------------------------------------------------------------ R7
+    # two layers write to the same capture pipe while an alias runs: the alias's prints go through the
+    # per-thread text dispatcher (a TextIOWrapper), nested commands are streamed by tee_stdout into the
+    # *buffer underneath* it.  Order is kept only if neither layer ever leaves text pending: every
+    # dispatcher write is flushed before it returns, every raw write is followed by a flush.
+    px = ctx.repo.module(PXY)
+    for cls_name in ("FileThreadDispatcher",):
+        wfn = px.func(f"{cls_name}.write")
+        wcfg = CFG(wfn)
+        wdefs = df.all_defs(wfn)
+        H = names_bound_to_text(wfn, "self.handle", wdefs) | {"self.handle"}
+        wr = [n for n in wcfg.nodes if n.kind == "stmt" and any(isinstance(c.func, ast.Attribute) and c.func.attr == "write" and unparse(c.func.value) in H for c in calls_in(n.ast))]
+        fl = [n for n in wcfg.nodes if n.kind == "stmt" and any(isinstance(c.func, ast.Attribute) and c.func.attr == "flush" and unparse(c.func.value) in H for c in calls_in(n.ast))]
+        if not wr:
+            raise AnchorMissing(f"{PXY}:{cls_name}.write: no write to the thread's handle")
+        for w in wr:
+            ok, path = wcfg.must_pass([w], lambda m: m in fl, exits=("exit",), skip_edge=lambda a_, b_, l_: l_ == "exc") if fl else (False, None)
+            ctx.ob("R7", f"{PXY}:{cls_name}.write", "every text written through the per-thread dispatcher is flushed before write() returns, unconditionally (tee_stdout writes nested output straight into the buffer underneath: pending text would be overtaken)", ok, key=f"{cls_name}.write|pending-text", where=loc(w.ast), path=wcfg.fmt_path(path) if path else None)
+    bw = [n for n in tcfg.nodes if n.kind == "stmt" and any(isinstance(c.func, ast.Attribute) and c.func.attr == "write" and (call_name(c) or "").split(".")[0] in TARGET for c in calls_in(n.ast))]
+    tf = [n for n in tcfg.nodes if n.kind == "stmt" and any(isinstance(c.func, ast.Attribute) and c.func.attr == "flush" and (call_name(c) or "").split(".")[0] in TARGET for c in calls_in(n.ast))]
+    for w in bw:
+        ok, path = tcfg.must_pass([w], lambda m: m in tf, exits=("exit",), skip_edge=lambda a_, b_, l_: l_ == "exc") if tf else (False, None)
+        ctx.ob("R7", f"{PL}:CommandPipeline.tee_stdout", f"`{short(w.ast, 50)}` is followed by a flush of the target before the next line", ok, key="tee|echo-not-flushed", where=loc(w.ast))
 
 
 META = {
